@@ -127,8 +127,14 @@ def run_case(spec, idx, ctx):
         # history: the dataset was preprocessed before with another descan fit, and Ptychography.preprocess is called twice
         build["dset_pre"] = [["constant"], ["plane"], ["constant", "no_shift"]][(idx // 5) % 3]
         build["pt_twice"] = bool((idx // 5) % 2)
+        if idx % 2 == 0:
+            build["learn_scan_positions"] = True  # (only used by the reset copy of the clone history below: no dataset optimizer is installed on the judged object)
     if idx % 3 == 2:
         build["probe_order"] = "permute"  # resolved once the number of modes is known
+    if idx % 2 == 0 and kind != "nonorth":
+        build["probe_from"] = "array"  # equivalent construction form: ProbePixelated.from_array instead of from_params + setter
+    if kind.startswith("constant") and (idx // 9) % 2 == 0:
+        build["learn_descan"] = True  # descan learnable: the library switches between descan-corrected and raw targets with the dataset optimizer
     if idx % 8 == 3 and kind not in ("dataset_opt",):
         build["dataset_file"] = "reload"
     if idx % 3 == 1 and kind != "ties" and not build.get("dataset_file"):
@@ -284,6 +290,28 @@ def run_case(spec, idx, ctx):
             ctx.close(max(ro, rp), gt, "truth_not_stationary", track="%s:%s" % (lt, ("constant" if kind.startswith("constant") else "no_shift") + (":clipped(known finding)" if clip == "on" else "")), detail=lambda: "%s |grad_obj(truth)|/|grad_obj(pert)|=%.2e |grad_probe(truth)|/|grad_probe(pert)|=%.2e scene=%s" % (lt, ro, rp, sc.describe()), **dict(common, loss=lt))
     # ---- interactions with other public features that share state with the pipeline ----------------------------------------
     rr = RATIO["l2_amplitude"] * (100.0 if kind.startswith("constant") else 1.0)
+    if build.get("learn_descan") and clip != "on":
+        # history of reconstruct() calls that install, keep, remove and re-install the dataset optimizer (the library compares with
+        # descan-corrected patterns without it and with the raw patterns + a learnable descan with it): zero loss at the truth in every call
+        sgd0 = {"type": "sgd", "lr": 0.0}
+        seq = [("not_mentioned", None), ("installed", sgd0), ("kept", sgd0), ("removed", {"type": "none"}), ("reinstalled", sgd0), ("not_mentioned_again", None)]
+        if idx % 2:
+            seq = seq[1:]
+        for step_i, (tag, dso) in enumerate(seq):
+            lt = ("l2_amplitude", "l2_intensity")[(idx + step_i) % 2]
+            try:
+                Lt = scenes.library_loss_with(pt, lt, J, dso)
+                Lq = scenes.library_loss_with(pt_pp, lt, J, dso)
+            except Exception as e:  # noqa: BLE001
+                from vf.core import exception_origin
+
+                if exception_origin(e)[0] and tag == "removed":
+                    ctx.count("dataset_optimizer_none_rejected:%s" % type(e).__name__)
+                    break
+                raise
+            ctx.count("optimizer_transition_steps")
+            ctx.close(Lt / max(Lq, 1e-300), rr, "loss_at_truth_nonzero", track="%s:dataset_optimizer_%s" % (lt, tag), detail=lambda: "%s loss(truth)=%.3e loss(perturbed probe)=%.3e in the reconstruct() call where the dataset optimizer is %s (sequence %s)" % (lt, Lt, Lq, tag, [t for t, _ in seq]),
+                      **dict(common, loss=lt, batch="full", history="dataset_optimizer_" + tag))
     if build.get("dset_pre") and clip != "on":
         # a clone that is re-preprocessed with another padding must not disturb the object it was cloned from
         try:
@@ -293,8 +321,17 @@ def run_case(spec, idx, ctx):
 
             with contextlib.redirect_stdout(io.StringIO()):
                 cl.preprocess(obj_padding_px=other_pad, com_fit_function=build["com_fit"], force_com_rotation=0, force_com_transpose=False, plot_rotation=False, plot_com=False)
-            del cl
             ctx.count("clone_repreprocessed")
+            if idx % 2 == 0:
+                # ... nor may a reset copy that refines its own object, probe and dataset parameters
+                from quantem.diffractive_imaging.ptychography import Ptychography
+
+                with contextlib.redirect_stdout(io.StringIO()):
+                    c2 = Ptychography.from_ptychography(pt)
+                    c2.reconstruct(num_iters=2, optimizer_params={"object": {"type": "sgd", "lr": 0.1}, "probe": {"type": "sgd", "lr": 0.1}, "dataset": {"type": "sgd", "lr": 5.0}}, batch_size=max(1, J // 2))
+                del c2
+                ctx.count("reset_copy_reconstructed")
+            del cl
         except Exception as e:  # noqa: BLE001  (a failing clone is C05's business; here only its effect on the original)
             ctx.count("clone_or_repreprocess_raised:%s" % type(e).__name__)
         L0c = scenes.library_loss(pt, "l2_amplitude", batch_size=J, key=key)
